@@ -11,6 +11,10 @@ LD = "breezy.lockdir"
 OUR_NONCE = 1000
 
 
+class Crash(BaseException):
+    """The locking process stops here (no handler of the code under test may run for it)."""
+
+
 class Info:
     """Stand-in for the Rust LockHeldInfo: a holder record."""
 
@@ -18,6 +22,11 @@ class Info:
         self.nonce = nonce
         self.dead = dead          # what is_lock_holder_known_dead() answers for this record
         self.label = label
+        # the other fields of a holder record; every locker of this harness run is "the same process on the same host"
+        self.pid = "4242"
+        self.user = "user"
+        self.hostname = "host"
+        self.start_time = "1"
 
     def __eq__(self, o):
         if not isinstance(o, Info):
@@ -67,6 +76,9 @@ class EnvFS:
         self.break_ours = break_ours  # may the environment break a lock that carries OUR nonce? (user intervention)
         self.env_log = []
         self.info_cls = Info
+        self.crash_at = None          # index of the transport operation before which the process stops (symbolic), or None
+        self.opcount = 0
+        self.nrand = 0
 
     def _fresh(self, stem):
         self.n += 1
@@ -117,13 +129,27 @@ class EnvFS:
             raise TransportError("injected failure in " + op)
 
     def _before(self, op):
+        if self.crash_at is not None:
+            if self.cx.truth(self.crash_at == self.opcount):
+                self.log.append(("CRASH", op))
+                raise Crash(op)
+            self.opcount += 1
         self._environment_step()
         self._maybe_fail(op)
+
+    def rand_chars(self, n):
+        """fresh name for every pending / temporary directory (what the real rand_chars gives with overwhelming
+        probability)"""
+        self.nrand += 1
+        return ("r%0" + str(n - 1) + "d") % self.nrand
 
     # -- transport API used by LockDir
     def mkdir(self, path, mode=None):
         self._before("mkdir")
         if path.endswith(".tmp"):
+            if path in self.dirs:
+                from dromedary.errors import FileExists
+                raise FileExists(path)         # debris of an earlier, interrupted attempt under the same name
             self.dirs[path] = None
         self.log.append(("mkdir", path))
 
@@ -236,6 +262,7 @@ def make_env(cx, interfere=0, faults=0, break_ours=False, steal_dead=False):
     L = module(cx)
     fs = EnvFS(cx, None, interfere, faults, break_ours)
     fs.info_cls = L.LockHeldInfo
+    L.rand_chars = fs.rand_chars
     ld = L.LockDir(fs, "lock")
     ld.get_config = lambda: {"locks.steal_dead": steal_dead}
     return L, fs, ld
